@@ -465,4 +465,53 @@ def typedKind : CellKind → CellKind
 
 def asTyped (t : List JCell) : List JCell := t.map fun c => { c with kind := typedKind c.kind }
 
+/-! ## The entry points (`bermuda/io/json.py:20-77,151-152`, `factory.py`)
+
+The text layer is outside the model, so a string, an open handle and the file behind a path are
+each identified with the AST of the text they hold; what IS modelled is which function each entry
+point calls, the `isinstance(file_or_fname, str)` branch of `json_to_triangle` and the falsy test
+`if file_or_fname:` of `triangle_to_json`. -/
+
+/-- the `file_or_fname` argument of `json_to_triangle`: a path (`str`; the document is the file's
+content) or an open handle -/
+inductive Source where
+  | path (doc : JVal)
+  | handle (doc : JVal)
+
+/-- `json_string_to_triangle(string)`: `json.loads(string, cls=TriangleDecoder)`, then `Triangle(cells)` -/
+def jsonStringToTriangle (doc : JVal) : Except Err (List JCell) := (decode doc).bind triangleOf
+
+/-- `json_to_triangle(file_or_fname)` = `Triangle.from_json`: both branches `json.load` with the
+same decoder, then `Triangle(cells)` -/
+def jsonToTriangle : Source → Except Err (List JCell)
+  | .path doc => (decode doc).bind triangleOf
+  | .handle doc => (decode doc).bind triangleOf
+
+/-- `triangle_json_loads` (deprecated): warns, then `json_string_to_triangle` -/
+def triangleJsonLoads (doc : JVal) : Except Err (List JCell) := jsonStringToTriangle doc
+
+/-- `triangle_json_load` (deprecated): warns, then `json_to_triangle(file)` -/
+def triangleJsonLoad (doc : JVal) : Except Err (List JCell) := jsonToTriangle (.handle doc)
+
+/-- `dict_to_triangle(obj)` = `Triangle.from_dict`: `json_string_to_triangle(json.dumps(obj))`; the
+AST of `json.dumps(obj)` is `obj` (text layer) -/
+def dictToTriangle (obj : JVal) : Except Err (List JCell) := jsonStringToTriangle obj
+
+/-- the `file_or_fname` argument of `triangle_to_json` -/
+inductive Dest where
+  | none                      -- `None` (the default)
+  | path (name : String)      -- a `str`
+  | handle                    -- an open file
+
+/-- `triangle_to_json(tri, file_or_fname)` = `Triangle.to_json`: (returned text, written text), as
+ASTs. `if file_or_fname:` is a truthiness test: the empty path `""` takes the return-a-string
+branch (an open handle is truthy). `TriangleEncoder.default` = `triangle_to_dict`. -/
+def triangleToJson (t : List JCell) : Dest → Option JVal × Option JVal
+  | .none => (some (toDict t), none)
+  | .path name => if name.isEmpty then (some (toDict t), none) else (none, some (toDict t))
+  | .handle => (none, some (toDict t))
+
+/-- the one document an export call produces, returned or written -/
+def exported (r : Option JVal × Option JVal) : Option JVal := r.1.or r.2
+
 end Bermuda.JsonIO
